@@ -215,6 +215,7 @@ def pout (s : PSys) : POp → List Nat
   | .peek x n => match (s.get x).recv.peekBytes s.m n with | some (_, d) => d | none => []
   | .readString x n => match (s.get x).recv.readString s.m n with | some (_, _, d) => d | none => []
   | .readInto x n => match (s.get x).recv.readInto s.m n with | some (_, _, d) => d | none => []
+  | .readByte x => match (s.get x).recv.readByte s.m with | some (_, _, b) => [b] | none => []
   | _ => []
 
 def prun : PSys → List POp → Option PSys
